@@ -52,7 +52,8 @@ func H_clean() {
 		staleFrames = append(staleFrames, frame("TestA - 3", stale1))
 	}
 	if vxrt.Bool("stale-test") {
-		staleFrames = append(staleFrames, frame("TestOld - 1", "x"))
+		// its body has a line shaped like the header of some unrelated entry
+		staleFrames = append(staleFrames, frame("TestOld - 1", "q\n[TestQ - 7]\nr"))
 	}
 	// where the stale frames sit and whether the live ones are in sorted order
 	content := ""
@@ -74,6 +75,14 @@ func H_clean() {
 		gcontent += frame("TestA - 2", "gstale")
 	}
 	writeFile(gpath, gcontent)
+	// an addressed file that sorts before f.snap and whose last (stale) entry lost its terminator
+	epath := dir + "/e.snap"
+	malformed := vxrt.Bool("earlier-file-with-unterminated-entry")
+	econtent := frame("TestA - 1", "e1")
+	if malformed {
+		econtent += "\n[TestGone - 1]\nhalf written entry"
+	}
+	writeFile(epath, econtent)
 	// a stale standalone snapshot with a custom extension
 	hasStaleExt := vxrt.Bool("stale-standalone-with-ext")
 	if hasStaleExt {
@@ -95,12 +104,14 @@ func H_clean() {
 	c := WithConfig(Dir(dir), Filename("f"), Update(false))
 	cs := WithConfig(Dir(dir), Update(false))
 	cg := WithConfig(Dir(dir), Filename("g"), Update(false))
+	ce := WithConfig(Dir(dir), Filename("e"), Update(false))
 	for r := 0; r < count; r++ {
 		ta, tb, ts := newT("TestA"), newT(nameB), newT("TestS")
 		c.MatchSnapshot(ta, bA1)
 		c.MatchSnapshot(ta, bA2)
 		c.MatchSnapshot(tb, bB1)
 		cg.MatchSnapshot(ta, "g1")
+		ce.MatchSnapshot(ta, "e1")
 		cs.MatchStandaloneSnapshot(ts, "sv")
 		ta.end()
 		tb.end()
@@ -129,6 +140,8 @@ func H_clean() {
 		vxrt.Assert(readFile(dir+"/TestS_1.snap") == "sv", "C07:addressed-standalone-untouched")
 		gg, _, gerr := getPrevSnapshot("[TestA - 1]", gpath)
 		vxrt.Assert(gerr == nil && gg == "g1", "C07:addressed-entry-in-second-file-unchanged")
+		ee, _, eerr := getPrevSnapshot("[TestA - 1]", epath)
+		vxrt.Assert(eerr == nil && ee == "e1", "C07:addressed-entry-in-earlier-file-unchanged")
 		for _, id := range []string{"TestA - 1", "TestA - 2", nameB + " - 1"} {
 			if id == "TestA - 2" && gStale {
 				// the same id is stale in g.snap and is rightly listed for that file
@@ -137,7 +150,7 @@ func H_clean() {
 			}
 			vxrt.Assert(!strings.Contains(out, bulletSymbol+id+"\n"), "C07:addressed-entry-not-listed")
 		}
-		for _, f := range []string{"/TestS_1.snap\n", "/f.snap\n", "/g.snap\n"} {
+		for _, f := range []string{"/TestS_1.snap\n", "/f.snap\n", "/g.snap\n", "/e.snap\n"} {
 			vxrt.Assert(!strings.Contains(out, dir+f), "C07:addressed-file-not-listed")
 		}
 	case 9: // C09: every stale item reported; removed only in clean mode; nothing else touched
@@ -185,6 +198,14 @@ func H_clean() {
 			}
 			vxrt.Assert(len(after) == len(before), "C09:file-size-unchanged-outside-clean-mode")
 		}
+		// nothing else is listed: one bullet line per stale item
+		wantListed := nStaleEntries
+		for _, b := range []bool{gStale, hasStaleExt, hasStaleStandalone, hasStaleFile, malformed} {
+			if b {
+				wantListed++
+			}
+		}
+		vxrt.Assert(strings.Count(out, bulletSymbol) == wantListed, "C09:exactly-the-stale-items-are-listed")
 		vxrt.Assert(readFile(dir+"/notes.txt") == "keep", "C09:non-snap-file-untouched")
 		vxrt.Assert(readFile(dir+"/sub/inner.snap") == "keep-inner", "C09:sub-directory-untouched")
 		vxrt.Assert(readFile(vxrt.Dir()+"2/other.snap") == "keep-other", "C09:unvisited-directory-untouched")
